@@ -405,6 +405,26 @@ func (c07) Run(t *tape.Tape, tier Tier) *Result {
 		}
 	}
 	held := map[[2]int]*heldPair{}
+	// (barriers only, and only those that are themselves visible: a barrier
+	// sends a redacted rendering of what it hides as reportable details; a
+	// secondary-error wrapper sends its payload only)
+	var safeHidden []gen.Token
+	var walkB func(n *gen.Node)
+	walkB = func(n *gen.Node) {
+		if gen.Info(n.K).Groups&gen.GBarrier != 0 {
+			for _, h := range n.Hid[:1] {
+				for _, tok := range h.Tokens() {
+					if tok.Safe && !tok.Neutral && !tok.UnderMark && !tok.Gone && !tok.UnderHidden {
+						safeHidden = append(safeHidden, tok)
+					}
+				}
+			}
+		}
+		for _, k := range n.Kids {
+			walkB(k)
+		}
+	}
+	walkB(spec)
 	sim.OnDeliver = func(d *world.Delivery) {
 		where := fmt.Sprintf("hop %d at process %d (%s) via %s", d.Msg.Hop, d.Proc.ID, d.Proc.Prof.Name, routeString(d.Msg.Path))
 		if d.Panic != "" || d.RePanic != "" {
@@ -424,6 +444,18 @@ func (c07) Run(t *tape.Tape, tier Tier) *Result {
 				for _, tok := range msgTokens {
 					if !strings.Contains(v, tok) {
 						res.add(Violation{Prop: "C07", Oracle: "hidden-visible-in-verbose-after-transfer", Culprit: typeOfLayer(obs.Tree(d.Err, false)[0]), Expected: "token " + tok + " in %+v", Observed: short(v), Where: where})
+					}
+				}
+			} else {
+				// a process that does not know every type (possibly not the
+				// barrier or the secondary-error wrapper itself) sees of a
+				// hidden error at least what was declared safe
+				v := obs.Fmt("%+v", d.Err)
+				if !obs.IsPanic(v) {
+					for _, tok := range safeHidden {
+						if !strings.Contains(v, tok.Tok) {
+							res.add(Violation{Prop: "C07", Oracle: "hidden-safe-parts-visible-at-unknowing", Culprit: tok.Kind.String(), Expected: "safe token " + tok.Tok + " of a hidden error in %+v", Observed: short(v), Where: where})
+						}
 					}
 				}
 			}
